@@ -23,7 +23,7 @@ def sh(cmd, cwd=None, env=None, timeout=1800):
     return p.returncode, (p.stdout + p.stderr)
 
 
-def run_one(sid, only_props=None):
+def run_one(sid, only_props=None, result_name="result.json"):
     d = os.path.join(VERIF, "seeded", sid)
     tmp = tempfile.mkdtemp(prefix="/tmp/seed_")
     res = {"id": sid}
@@ -68,11 +68,13 @@ def run_one(sid, only_props=None):
         res["undecided_or_error"] = [p for p, v in det.items() if v["exit"] in (2, 3)]
     finally:
         shutil.rmtree(tmp, ignore_errors=True)
-    json.dump(res, open(os.path.join(d, "result.json"), "w"), indent=1)
+    json.dump(res, open(os.path.join(d, result_name), "w"), indent=1)
     return res
 
 
 def main():
+    own = "--own" in sys.argv
+    sys.argv = [a for a in sys.argv if a != "--own"]
     skip = [a.split("=")[1].split(",") for a in sys.argv[1:] if a.startswith("--skip=")]
     global PROPS
     if skip:
@@ -80,8 +82,15 @@ def main():
     sys.argv = [a for a in sys.argv if not a.startswith("--skip=")]
     ids = sys.argv[1:] or sorted(os.listdir(os.path.join(VERIF, "seeded")))
     ids = [i for i in ids if os.path.exists(os.path.join(VERIF, "seeded", i, "patch.diff"))]
+    def job(i):
+        if own:
+            # only the check of the property the change was written against (fast mode); the result file is
+            # separate so that a full cross-property matrix of an earlier run is not overwritten
+            prop = json.load(open(os.path.join(VERIF, "seeded", i, "meta.json")))["property"]
+            return run_one(i, [prop], "result_own.json")
+        return run_one(i)
     with cf.ThreadPoolExecutor(max_workers=3) as ex:
-        for r in ex.map(run_one, ids):
+        for r in ex.map(job, ids):
             print(r["id"], "| demo", r.get("demo_unpatched"), "->", r.get("demo_patched"), "| tests:", r.get("tests_patched"),
                   "| detected by:", r.get("detected_by"), "| undecided/error:", r.get("undecided_or_error"))
 
